@@ -15,7 +15,11 @@ tree through the public Field API node by node and checks, on the real code alon
   mapping, mesh), or fails likewise;
 * stacking the components of the result / of the leaves reproduces them;
 * fields on different meshes or with incompatible component counts are refused;
-* two-output ufunc calls (`np.divmod(f, g)`): both results cell by cell, validity, mesh, operands untouched, refusals.
+* two-output ufunc calls (`np.divmod(f, g)`): both results cell by cell, validity, mesh, operands untouched, refusals;
+* the other forms of the ufunc protocol (`stream_umethod`): `np.<ufunc>.reduce / .accumulate / .outer` on fields and binary
+  ufunc calls with `out=<Field>`: an accepted call gives a field on the inputs' mesh whose array is the same NumPy call on the
+  arrays and which is valid where all field inputs are; inputs stay untouched, the `out` field changes in its array only;
+  the state of `out` after the call (also after a refused call) goes to the model as well.
 
 The same tree goes to the Lean model (`evalF`) and everything observable is compared exactly.
 
@@ -54,7 +58,12 @@ RULE = ("random expression trees (depth<=4 quick / <=6 thorough) over 1-4 leaf f
         "Fraction(impl) == model rational; angle/phase/tolerance-division through route (iii) with |err| <= 2^-40 scale; plus a malformed "
         "stream (wrong lengths, odd array shapes, lists into ufuncs, 2**f, scalar.dot(vector)), a mismatch stream (different meshes, "
         "component counts), a metadata stream (labelled scalars, differing labels) and a two-output-ufunc stream (np.divmod / np.modf "
-        "on fields, numbers, arrays, lists, complex data, other meshes / counts: the tuple branch of __array_ufunc__). MAGNITUDES: a rescaled "
+        "on fields, numbers, arrays, lists, complex data, other meshes / counts: the tuple branch of __array_ufunc__) and a ufunc-method stream "
+        "(np.add/multiply/maximum/minimum.reduce with every axis incl. None / out of range / counted from the end, keepdims on and off, "
+        "scalar fields and single-cell axes where the call is the identity; .accumulate along every axis; .outer; binary ufunc calls with "
+        "out=<Field>: same / narrower / wider component count, int / float / complex out dtypes incl. impossible casts, out on another mesh, "
+        "out identical with an input, no field among the inputs, labelled scalar first - result AND the state of out after the call, also "
+        "when the call is refused after out was written). MAGNITUDES: a rescaled "
         "stream (trees / angle / phase / tolerance division / divmod / metadata cases with all leaves times 2^k per field group, k from "
         "-300 to +200 i.e. 1e-90 .. 1e60, mostly 1e-15 .. 1e12, operands rescaled to keep the tree homogeneous: still exact, tags scaled:*), "
         "a full-significand stream in the tolerance regime (53/24-bit random significands, float64/float32/complex128/complex64/int64/"
@@ -81,7 +90,8 @@ ASSUMPTIONS = ["exact-regime inputs: every binary64 operation on the code path i
                "model, and beyond 2^53 the code is known to differ from NumPy (results are rebuilt as binary64; VERIF_C03_BIGINT=1 "
                "generates such data and demands equality)",
                "non-integer exponents, arccos/phase of complex values, labels clashing with Field attribute names, "
-               "ndarray @/&/<< Field are outside the model and not generated",
+               "ndarray @/&/<< Field, ufunc.at / reduceat, where=, unary and two-output ufuncs with out= are outside the model and not generated "
+               "(binary ufuncs with out=, reduce, accumulate, outer are modelled: stream_umethod)",
                "side condition LiftOk of the cell-wise theorems: an array-like directly under << / .angle() is not mesh-shaped "
                "(Field(mesh, value=array of shape mesh.n) reads it as per-cell scalars); such cases are still compared model-vs-code, "
                "only the per-cell oracle is skipped (tag mesh-shaped-operand-under-shl/angle)"]
@@ -89,18 +99,31 @@ UNPROVED = ["magnitude independence is a property of the CODE only: the model co
             "harmless; that the binary64 code takes no decision by the size of a value (absolute tolerances, guards, rounding to decimals, "
             "narrower intermediate types) is established by the rescaled (exact) and full-significand (tolerance) streams, not by a theorem",
             "eval_pure (operand immutability) is a runtime fact: the functional model has it by construction; the code is checked by "
-            "snapshots around every evaluation step (every operator, ufunc and two-output call, both operand orders)",
-            "comm_meta at full strength is false of the code (open findings D10 / D51, theorems comm_meta_fails / "
-            "comm_meta_fails_scalar); comm_meta_partial, comm_meta_trees_partial (scalar-with-vector, equal labels) and comm_meta_raw "
-            "(number / fitting vector / fitting array on either side) state the provable part",
-            "acceptance asymmetry between Field∘ndarray (_apply_operator) and ndarray∘Field (__array_ufunc__) for arrays that "
-            "do not have the field's own shape (open finding D52, theorem comm_accept_fails): a violation of the a∘b = b∘a clause "
-            "observed on the code; the model follows the code",
-            "acceptance (typed_total, the *_meta theorems) is proved for the typing judgment HasTy: fields on ONE mesh (Mesh equal, "
-            "not merely allclose), numbers, vectors of length nvdim and arrays of shape n+[nvdim]; not covered by an acceptance "
-            "theorem (only by the conditional eval_cellwise and the correspondence run): ** with a field / array exponent, "
-            "np.power(number, f), << and angle with a non-field operand, other broadcastable array shapes (n+[1], [1], 0-d), "
-            "a scalar field first in a ufunc call with a vector field second"]
+            "snapshots around every evaluation step (every operator, ufunc, two-output call and ufunc method, both operand orders; for "
+            "out=<Field> only the array of that field may change - theorem out_state_kept is the model-side statement)",
+            "comm_meta at full strength is false of the code (open findings D10 / D51, theorems comm_meta_fails / comm_meta_fails_scalar); "
+            "comm_meta_iff / comm_same_field_iff now state the EXACT condition (labels and mapping of a∘b and b∘a agree iff the counts "
+            "differ or both operands carry the same labels and mapping; everything else - mesh, count, unit, kind, values, validity - "
+            "always agrees), so the violating inputs are exactly D10 ∪ D51",
+            "acceptance asymmetry between Field∘ndarray (_apply_operator) and ndarray∘Field (__array_ufunc__) (open finding D52, theorem "
+            "comm_accept_fails): array_operand_ok_iff gives the exact acceptance condition of either order for arrays of ARBITRARY shape; "
+            "they differ for 0-d arrays, arrays that broadcast but fail _apply_operator's guard, and labelled scalar fields without mapping "
+            "next to wider arrays - a violation of the a∘b = b∘a clause observed on the code; the model follows the code",
+            "acceptance of whole trees (typed_total, typed_scalar_tree, typed_valid_leaves, laws_typed) is proved for the typing judgment "
+            "HasTy: fields on ONE mesh (Mesh equal), numbers, vectors of length nvdim and arrays of shape n+[nvdim]; since round 2 also ** "
+            "with field / vector / array exponents and np.power in both positions (when one of the two dtype kinds is not integer, or the "
+            "exponent has no negative entry), << and angle with numbers / constant vectors / per-cell arrays, an unlabelled scalar field "
+            "first in a ufunc call. NOT inside typed trees (only step-level equivalences + conditional eval_cellwise / eval_scalar_tree + "
+            "correspondence): fields on meshes that are allclose but not equal (fields_ok_iff, ufunc_fields_close), other broadcastable "
+            "array shapes n+[1], [1], 0-d (array_operand_ok_iff), integer fields raised to integer fields whose sign is only known from "
+            "the data (pow_accepts_iff, binary_table), mesh-shaped array-likes directly under << / angle (side condition LiftOk)",
+            "ufunc protocol: binary ufuncs with out=<Field>, reduce, accumulate, outer are in the model (reduce_ok_iff: accepted iff identity; "
+            "accumulate_law; outer_rejected; out_entries / out_state_kept / out_accepts_meta); ufunc.at (mutates its first operand by "
+            "design, returns None), reduceat, where=, unary and two-output ufuncs with out=, dtype= / casting= keywords are neither "
+            "modelled nor generated. Observation, model follows the code (theorem out_written_then_refused): np.add(s, s, out=h) with a "
+            "labelled scalar field s and a wider field h overwrites h.array and then raises NotImplementedError; the mesh of an out= "
+            "field is never compared with the inputs' mesh, and its validity mask is never updated (tags out:written-then-refused, "
+            "out:on-another-mesh-accepted)"]
 BUDGET = {"quick": 100, "thorough": 1100}
 
 LABELS = ["a", "b", "c", "p", "q", "mx", "my", "mz", "ft_x", "ft_y", "s1", "t2", "x", "y", "z"]
@@ -800,6 +823,101 @@ def stream_pair(rng, tier, count):
         elif how == "same-leaf":
             l = r = dict(t="leaf", k=1)
         yield dict(kind="pair", fn="modf" if how == "modf" else "divmod", how=how, meshes=meshes, fields=[f1, f2], l=l, r=r)
+
+
+UMETHOD_FN = {"uadd": np.add, "usub": np.subtract, "umul": np.multiply, "udiv": np.divide, "umax": np.maximum, "umin": np.minimum}
+
+
+def stream_umethod(rng, tier, count):
+    # ---- the other forms of the ufunc protocol: np.<ufunc>.reduce / .accumulate / .outer on fields and calls with out=<Field>
+    for _ in range(count):
+        spec, dims, _ = gen_env(rng, tier, nfields=1)
+        n = spec["n"]
+        ndim = len(n)
+        ncells = int(np.prod(n))
+        how = rng.choice(["reduce"] * 5 + ["accumulate"] * 3 + ["outer"] + ["out"] * 9)
+        meshes = [spec]
+        if how in ("reduce", "accumulate"):
+            fn = rng.choice(["uadd", "uadd", "umul", "umax", "umin"])
+            sub = rng.choice(["any", "any", "scalar-last", "unit-axis"]) if how == "reduce" else "any"
+            nv = 1 if sub == "scalar-last" else rng.choice([1, 2, 3, 3, 4])
+            if fn == "umul":
+                f1 = gen_field_spec(rng, 0, ncells, ndim, dims, nv=nv, cls="pow2", dtype=rng.choice(["float64", "float32", "complex128", None]))
+            else:
+                f1 = gen_field_spec(rng, 0, ncells, ndim, dims, nv=nv, cls="int")
+            axis = rng.choice(list(range(ndim + 1)) * 3 + [None, ndim + 1 + rng.randint(0, 1)])
+            keep = rng.random() < 0.6
+            if sub == "scalar-last":
+                axis, keep = ndim, rng.random() < 0.85
+            elif sub == "unit-axis" and 1 in n:
+                axis, keep = rng.choice([a for a, k in enumerate(n) if k == 1]), rng.random() < 0.85
+            if how == "accumulate" and axis is None:
+                axis = 0
+            yield dict(kind="umethod", how=how, sub=sub, fn=fn, meshes=meshes, fields=[f1], l=dict(t="leaf", k=0), r=None,
+                       out=None, axis=axis, keep=keep, neg=rng.random() < 0.3)
+            continue
+        if how == "outer":
+            f1 = gen_field_spec(rng, 0, ncells, ndim, dims, cls="int")
+            f2 = gen_field_spec(rng, 0, ncells, ndim, dims, cls="int")
+            yield dict(kind="umethod", how=how, sub="ff", fn=rng.choice(["uadd", "umul"]), meshes=meshes, fields=[f1, f2],
+                       l=dict(t="leaf", k=0), r=dict(t="leaf", k=1), out=None, axis=None, keep=False, neg=False)
+            continue
+        # ---- out=
+        sub = rng.choice(["ff", "ff", "ff", "fs", "sf", "sf-labelled", "fnum", "numf", "farr", "arrf", "flist", "wider", "wider-labelled",
+                          "narrow", "out-mesh", "in-mesh", "cast", "cast", "out-self", "nofield", "nvdim"])
+        fn = rng.choice(["uadd", "uadd", "usub", "umul", "udiv", "umax", "umin"])
+        nv = rng.choice([1, 2, 3, 3, 4])
+        nv1 = 1 if sub in ("sf", "sf-labelled", "wider", "wider-labelled") else nv
+        nv2 = 1 if sub in ("fs", "wider", "wider-labelled") else nv
+        nvo = nv
+        if sub in ("sf", "sf-labelled"):
+            nv2 = nvo = rng.choice([2, 3, 4])
+        if sub in ("wider", "wider-labelled"):
+            nvo = rng.choice([2, 3])
+        if sub == "narrow":
+            nv1 = nv2 = rng.choice([2, 3])
+            nvo = 1
+        if sub == "nvdim":
+            nv1, nv2 = rng.sample([2, 3, 4], 2)
+            nvo = nv1
+        if sub in ("out-mesh", "in-mesh"):
+            ax = rng.randrange(ndim)
+            cell = (Fraction(spec["p2"][ax]) - Fraction(spec["p1"][ax])) / n[ax]
+            spec2 = dict(spec)
+            spec2["p1"] = [float(Fraction(v) + (cell if a == ax else 0)) for a, v in enumerate(spec["p1"])]
+            spec2["p2"] = [float(Fraction(v) + (cell if a == ax else 0)) for a, v in enumerate(spec["p2"])]
+            meshes.append(spec2)
+        real_in = ["float64", "float64", "float32", "int64", "int32", None]
+        cplx_in = sub == "cast" and rng.random() < 0.4
+        lab1 = "custom" if sub in ("sf-labelled", "wider-labelled") else ("default" if sub in ("sf", "wider") else None)
+        f1 = gen_field_spec(rng, 0, ncells, ndim, dims, nv=nv1, cls="int", dtype="complex128" if cplx_in else rng.choice(real_in),
+                            labels=lab1)
+        f2 = gen_field_spec(rng, 1 if sub == "in-mesh" else 0, ncells, ndim, dims, nv=nv2, cls="pow2",
+                            dtype=rng.choice(["float64", "float64", "float32"]))
+        if sub == "cast":
+            odt = rng.choice(["int64", "int32", "float64", "float32"] if not cplx_in else ["float64", "float32", "int64", "complex64"])
+        else:
+            odt = rng.choice(["float64", "float64", "float64", "float32", "complex128", "complex64", None])
+        fo = gen_field_spec(rng, 1 if sub == "out-mesh" else 0, ncells, ndim, dims, nv=nvo, cls="int", dtype=odt)
+        l, r, out = dict(t="leaf", k=0), dict(t="leaf", k=1), 2
+        if sub == "fnum":
+            r = gen_num(rng, pow2=True, allow_cplx=False).node
+        elif sub == "numf":
+            l, r = gen_num(rng, allow_cplx=False).node, dict(t="leaf", k=1)
+        elif sub in ("farr", "flist", "arrf"):
+            shape = rng.choice([[nv], list(n) + [nv]])
+            a = gen_arr(rng, shape, pow2=True, allow_cplx=False, py="list" if sub == "flist" else "ndarray").node
+            if sub == "arrf":
+                l, r = gen_arr(rng, shape, allow_cplx=False, py="ndarray").node, dict(t="leaf", k=1)
+            else:
+                r = a
+        elif sub == "nofield":
+            l = gen_arr(rng, list(n) + [nv], allow_cplx=False, py="ndarray").node
+            r = gen_num(rng, pow2=True, allow_cplx=False).node
+        elif sub == "out-self":
+            out = rng.choice([0, 1]) if fn != "udiv" else 0
+        yield dict(kind="umethod", how="out", sub=sub, fn=fn, meshes=meshes, fields=[f1, f2, fo], l=l, r=r, out=out,
+                   axis=None, keep=False, neg=False)
 
 
 # ---------------------------------------------------------------- magnitudes, exact regime: rescaling by powers of two
@@ -1636,7 +1754,8 @@ def cases(rng, tier):
     plan = [(stream_main, 4600 if quick else 24000), (stream_route3, 450 if quick else 2000),
             (stream_malformed, 1000 if quick else 5000), (stream_mismatch, 550 if quick else 2500),
             (stream_meta, 550 if quick else 2500), (stream_stack, 250 if quick else 1200),
-            (stream_pair, 450 if quick else 2000), (stream_scaled, 1500 if quick else 8000),
+            (stream_pair, 450 if quick else 2000), (stream_umethod, 450 if quick else 2200),
+            (stream_scaled, 1500 if quick else 8000),
             (stream_mfloat, 900 if quick else 5000), (stream_long, 10 if quick else 60)]
     gens = [fn(rng, tier, cnt) for fn, cnt in plan]
     schedule = [k for k, (_, cnt) in enumerate(plan) for _ in range(cnt)]
@@ -2151,6 +2270,103 @@ def run_pair(case, obs, fields, fail):
     obs["nontrivial"] = bool(res[0].array.size > 1 and not np.all(res[0].array == res[0].array.reshape(-1)[0]))
 
 
+def run_umethod(case, obs, fields, fail):
+    """np.<ufunc>.reduce / .accumulate / .outer on fields and binary ufunc calls with out=<Field> on the real code.  Property-level
+    checks: an accepted call yields a field on the mesh of its field inputs whose array is the same NumPy expression on the
+    arrays and which is valid where all field inputs are; the inputs stay untouched (the `out` field may change in its array
+    only); inputs on different meshes are refused."""
+    def opd(node):
+        return fields[node["k"]] if node["t"] == "leaf" else build_opd(node)
+    how, fnname = case["how"], case["fn"]
+    uf = UMETHOD_FN[fnname]
+    obs["tags"].append(f"umethod:{how}:{case['sub']}")
+    lv = opd(case["l"])
+    rv = opd(case["r"]) if case["r"] is not None else None
+    outf = fields[case["out"]] if case["out"] is not None else None
+    ndim = len(fields[0].mesh.n)
+    axis = case["axis"]
+    if axis is not None and case.get("neg") and axis <= ndim:
+        axis_arg = axis - (ndim + 1)      # the same axis counted from the end
+    else:
+        axis_arg = axis
+    ins = [v for v in (lv, rv) if v is not None]
+    before = [snap(v) for v in ins]
+    out_before = snap(outf) if outf is not None else None
+    out_arr0 = outf.array.copy() if outf is not None else None
+    err = None
+    with np.errstate(all="ignore"):
+        try:
+            if how == "reduce":
+                res = uf.reduce(lv, axis=axis_arg, keepdims=case["keep"])
+            elif how == "accumulate":
+                res = uf.accumulate(lv, axis=axis_arg)
+            elif how == "outer":
+                res = uf.outer(lv, rv)
+            else:
+                res = uf(lv, rv, out=outf)
+        except Exception as e:
+            res, err = None, e
+    for v, b in zip(ins, before):
+        if v is outf:
+            continue
+        if snap(v) != b:
+            fail(f"PURE: np.{uf.__name__}.{how if how != 'out' else '__call__(out=)'} modified an input: {snap_diff(b, snap(v))} changed")
+    obs["nontrivial"] = False
+    if outf is not None:
+        a = snap(outf)
+        changed = snap_diff(out_before, a)
+        if [c for c in changed if c != "array bytes"]:
+            fail(f"OUT: the call changed more than the array of its out= field: {changed}")
+        obs["out"] = field_obs(outf)
+        obs["mutable_leaf"] = case["out"]
+        written = "array bytes" in changed
+        obs["tags"].append("out:" + ("written" if written else "untouched") + ("-then-refused" if (written and err is not None) else ""))
+    if err is not None:
+        obs["res"] = "err"
+        obs["tags"].append("refused:" + type(err).__name__)
+        return
+    if not isinstance(res, df.Field):
+        obs["res"] = "raw"
+        fail(f"RESULT: np.{uf.__name__}.{how} evaluates to {type(res).__name__}, not a Field")
+        return
+    obs["res"] = field_obs(res)
+    obs["tags"].append(f"ok-nvdim:{res.nvdim}")
+    src = [v for v in ins if isinstance(v, df.Field)]
+    if len(src) == 2 and really_different(src[0].mesh, src[1].mesh):
+        fail(f"MESH: np.{uf.__name__} accepted two input fields that live on different meshes")
+    if outf is not None and src and really_different(src[0].mesh, outf.mesh):
+        obs["tags"].append("out:on-another-mesh-accepted")
+    if src:
+        if not (res.mesh == src[0].mesh and mesh_state(res.mesh)[:6] == mesh_state(src[0].mesh)[:6]):
+            fail(f"MESHKEPT: the result of np.{uf.__name__}.{how} does not live on the mesh of its field inputs")
+        valid = reduce(np.logical_and, [np.asarray(v.valid) for v in src])
+        if not np.array_equal(np.asarray(res.valid), valid):
+            fail(f"VALID: the result of np.{uf.__name__}.{how} is not valid exactly where all field inputs are")
+    # the same NumPy expression on the arrays (inputs as they were before the call)
+    arrs = []
+    for v, b in zip(ins, before):
+        if isinstance(v, df.Field):
+            arrs.append(np.frombuffer(b[1], dtype=b[2]).reshape(b[3]))
+        else:
+            arrs.append(v)
+    with np.errstate(all="ignore"):
+        if how == "reduce":
+            exp = uf.reduce(arrs[0], axis=axis_arg, keepdims=case["keep"])
+        elif how == "accumulate":
+            exp = uf.accumulate(arrs[0], axis=axis_arg)
+        elif how == "outer":
+            exp = uf.outer(arrs[0], arrs[1])
+        else:
+            exp = uf(arrs[0], arrs[1], out=out_arr0)
+    exp = np.asarray(exp)
+    if exp.shape != res.array.shape or not np.array_equal(res.array, exp, equal_nan=True):
+        fail(f"NUMPY: the array of np.{uf.__name__}.{how}(...) on fields differs from the same call on the arrays "
+             f"(shape {res.array.shape} vs {exp.shape})")
+    if outf is not None and not np.array_equal(outf.array, exp, equal_nan=True):
+        fail(f"OUT: after np.{uf.__name__}(..., out=h) the array of h is not the result")
+    obs["nontrivial"] = bool(res.array.size > 1 and not np.all(res.array == res.array.reshape(-1)[0]))
+
+
 def field_obs(f):
     arr = np.asarray(f.array).reshape(-1)
     if np.iscomplexobj(arr):
@@ -2188,6 +2404,8 @@ def run_impl(case):
         obs["tags"].append(f"stack-nvdim:{f.nvdim}")
     elif case["kind"] == "pair":
         run_pair(case, obs, fields, fail)
+    elif case["kind"] == "umethod":
+        run_umethod(case, obs, fields, fail)
     else:
         mf = case["kind"] in ("mtree", "mangle")
         single = any(fs["dtype"] in ("float32", "complex64") for fs in case["fields"])
@@ -2229,7 +2447,7 @@ def run_impl(case):
         obs["tags"].append("depth:" + str(depth(case["expr"])))
     for k, (f, b) in enumerate(zip(fields, leaf_snaps)):
         a = snap(f)
-        if a != b:
+        if a != b and not (k == obs.get("mutable_leaf") and snap_diff(b, a) == ["array bytes"]):
             fail(f"PURE: leaf field {k} changed during the evaluation: {snap_diff(b, a)}")
     return obs
 
@@ -2291,6 +2509,14 @@ def model_requests(case, obs):
         if case["fn"] == "modf":
             return [dict(op="pair1", field=fields[case["l"]["k"]])]
         return [dict(op="pair", fields=fields, l=expr_json(case["l"]), r=expr_json(case["r"]))]
+    if case["kind"] == "umethod":
+        req = dict(op="umethod", how=case["how"], fn=case["fn"], fields=fields, l=expr_json(case["l"]), keep=bool(case["keep"]),
+                   axis=case["axis"])
+        if case["r"] is not None:
+            req["r"] = expr_json(case["r"])
+        if case["out"] is not None:
+            req["out"] = case["out"]
+        return [req]
     e = expr_json(case["expr"])
     if case["kind"] in ("angle", "mangle"):
         return [dict(op="eval", fields=fields, expr=e, sq="id"), dict(op="eval", fields=fields, expr=e, sq="one")]
@@ -2328,6 +2554,9 @@ def cmp_meta(name, got, mj, dis):
     if got["valid"] != mj["valid"]:
         k = next(i for i, (a, b) in enumerate(zip(got["valid"], mj["valid"])) if a != b)
         dis.append(f"{name}: validity differs (first at flat cell {k}: impl {got['valid'][k]})")
+    if mj.get("scalar") is False:
+        dis.append(f"{name}: MODEL-INTERNAL an entry of the code-shaped model result is not the tree of scalars at that entry "
+                   "(theorem eval_scalar_tree contradicted?)")
     if mj.get("spec") is False and LIFT_OK[0]:
         dis.append(f"{name}: MODEL-INTERNAL the code-shaped model result is not the per-cell specification (theorem eval_cellwise contradicted?)")
     return True
@@ -2359,6 +2588,17 @@ def compare(case, obs, rs):
     LIFT_OK[0] = obs.get("lift_ok", True)
     r = rs[0]
     name = case["kind"]
+    if case["kind"] == "umethod" and case["how"] == "out":
+        # the state of the out= field after the call (whether or not the call was refused), then the returned field
+        if "ok" not in r:
+            dis.append(f"umethod out: model driver error {r}")
+            return dis
+        if cmp_meta("out= field after the call", obs["out"], r["ok"]["out"], dis):
+            cmp_data_exact("out= field after the call", obs["out"], r["ok"]["out"], dis)
+        if r["ok"].get("spec") is False:
+            dis.append("umethod out: MODEL-INTERNAL the returned field does not hold the array written to out (theorem out_entries contradicted?)")
+        r = r["ok"]["res"]
+        name = "umethod out"
     if obs["res"] == "err":
         if "err" not in r:
             dis.append(f"{name}: impl refuses, model accepts")
